@@ -238,6 +238,12 @@ static ares_status_t parse_nameserver_uri(ares_buf_t     *buf,
   sconfig->tcp_port = sconfig->udp_port;
   port              = ares_uri_get_query_key(uri, "tcpport");
   if (port != NULL) {
+    /* Same rule as parse_nameserver(): the port text must be 1 to 5 decimal
+     * digits and fit a port number, reject it instead of silently truncating */
+    if (!ares_str_isnum(port) || ares_strlen(port) > 5 || atoi(port) > 65535) {
+      status = ARES_EBADSTR;
+      goto done;
+    }
     sconfig->tcp_port = (unsigned short)atoi(port);
   }
 
